@@ -4,5 +4,5 @@ CONSTANTS
   C = 8
 INIT Init
 NEXT Next
-INVARIANT Out
+INVARIANTS Out OutBoundary
 CHECK_DEADLOCK FALSE
